@@ -40,6 +40,8 @@ const POISON: u8 = 0xDD; // freed bytes
 
 static ACTIVE: AtomicBool = AtomicBool::new(false);
 static ARENA_BASE: AtomicUsize = AtomicUsize::new(0);
+/// Arena offset of a multiple of 4 GiB (0 = the arena does not contain one).
+static BOUNDARY_OFF: AtomicUsize = AtomicUsize::new(0);
 /// When ≥ 0, a failed allocation writes one line to this fd *before* the
 /// caller sees the null pointer — so a parent process can tell an abort that
 /// follows an injected failure from any other abort.
@@ -66,6 +68,12 @@ pub enum Placement {
     /// allocations are exactly adjacent in memory (what a small bootloader
     /// heap does); overruns are not detected in this mode
     Packed = 5,
+    /// like MinAlign, but one allocation of the run (the first one at least as
+    /// large as a size drawn from the script) is put across — or flush against
+    /// — a multiple of 4 GiB: code that folds an address into 32 bits
+    /// somewhere only notices there. Needs the arena to be mapped around such
+    /// a boundary (see `init`); otherwise it behaves like MinAlign.
+    Straddle4G = 6,
 }
 
 #[derive(Clone, Copy, Debug, PartialEq, Eq)]
@@ -130,6 +138,7 @@ impl Config {
                         3 => Placement::RandomGap,
                         4 => Placement::PageEnd,
                         5 => Placement::Packed,
+                        6 => Placement::Straddle4G,
                         _ => return None,
                     }
                 }
@@ -282,6 +291,8 @@ pub struct Counters {
     pub dirty: u64,
     /// allocation placed flush against a PROT_NONE guard page.
     pub guarded: u64,
+    /// allocation placed across or flush against a multiple of 4 GiB.
+    pub straddled: u64,
     pub bytes: u64,
 }
 
@@ -295,6 +306,7 @@ struct State {
     alloc_index: u32,
     free_seq: u32,
     cur_op: u32,
+    straddle_done: bool,
     counters: Counters,
     /// offsets (page index) of pages currently PROT_NONE.
     nguards: usize,
@@ -318,6 +330,7 @@ static mut ST: State = State {
     alloc_index: 0,
     free_seq: 0,
     cur_op: 0,
+    straddle_done: false,
     counters: Counters {
         allocs: 0,
         frees: 0,
@@ -329,6 +342,7 @@ static mut ST: State = State {
         recycled: 0,
         dirty: 0,
         guarded: 0,
+        straddled: 0,
         bytes: 0,
     },
     nguards: 0,
@@ -346,6 +360,8 @@ fn st() -> &'static mut State {
 
 extern "C" {
     fn mprotect(addr: *mut u8, len: usize, prot: i32) -> i32;
+    fn mmap(addr: *mut u8, len: usize, prot: i32, flags: i32, fd: i32, off: i64) -> *mut u8;
+    fn munmap(addr: *mut u8, len: usize) -> i32;
     fn write(fd: i32, buf: *const u8, n: usize) -> isize;
     fn _exit(code: i32) -> !;
 }
@@ -559,9 +575,26 @@ impl State {
                 // out of guard slots: ordinary minimal-alignment placement
                 // (a page per block without a guard would only burn arena)
                 Placement::PageEnd if self.nguards >= self.guards.len() => Placement::MinAlign,
+                Placement::Straddle4G => Placement::MinAlign,
                 p => p,
             };
+            // the one boundary allocation of a Straddle4G run
+            let boundary = BOUNDARY_OFF.load(Ordering::Relaxed);
+            let mut straddle_at = None;
+            if self.cfg.placement == Placement::Straddle4G && !self.straddle_done && boundary != 0 {
+                let want = [48usize, 200, 1000, 5000][(self.cfg.alloc_seed % 4) as usize];
+                if size >= want && size < ARENA_LEN / 8 && start + RZ < boundary - size {
+                    // bit 2 of the seed: flush against the boundary, or across it
+                    let o = if self.cfg.alloc_seed & 4 == 0 { boundary - size } else { boundary - (size / 2) };
+                    straddle_at = Some(o & !(align - 1));
+                }
+            }
             off = match placement {
+                _ if straddle_at.is_some() => {
+                    self.straddle_done = true;
+                    self.counters.straddled += 1;
+                    straddle_at.unwrap()
+                }
                 Placement::Packed => round_up(start, align),
                 Placement::Natural16 => round_up(start, align.max(16)),
                 Placement::PageEnd => {
@@ -837,6 +870,23 @@ pub fn init() {
     if arena() != 0 {
         return;
     }
+    // Preferably the arena sits around a multiple of 4 GiB (its middle), at a
+    // fixed address: addresses above 2^32 are what a 64-bit loader sees, and the
+    // Straddle4G placement needs the boundary inside the arena.
+    const MAP_PRIVATE_ANON_NOREPLACE: i32 = 0x02 | 0x20 | 0x10_0000;
+    for boundary in [0x6_0000_0000usize, 0x7_0000_0000, 0x11_0000_0000, 0x23_0000_0000] {
+        let want = (boundary - ARENA_LEN / 2) as *mut u8;
+        let p = unsafe { mmap(want, ARENA_LEN, PROT_RW, MAP_PRIVATE_ANON_NOREPLACE, -1, 0) };
+        if p == want {
+            unsafe { std::ptr::write_bytes(p, VIRGIN, ARENA_LEN) };
+            ARENA_BASE.store(p as usize, Ordering::Relaxed);
+            BOUNDARY_OFF.store(ARENA_LEN / 2, Ordering::Relaxed);
+            return;
+        }
+        if p as isize != -1 && !p.is_null() {
+            unsafe { munmap(p, ARENA_LEN) };
+        }
+    }
     let layout = Layout::from_size_align(ARENA_LEN, PAGE).unwrap();
     let p = unsafe { System.alloc(layout) };
     assert!(!p.is_null(), "arena allocation failed");
@@ -872,6 +922,7 @@ pub fn begin_run(cfg: Config) {
     s.alloc_index = 0;
     s.free_seq = 0;
     s.cur_op = 0;
+    s.straddle_done = false;
     s.counters = Counters::default();
 }
 
